@@ -366,6 +366,10 @@ class MessageManager(ClientLike):
         Args:
             module (Module): Module object to remove
         """
+        if module.conn not in self.modules:
+            # already removed, e.g. by a failed write while the reason for this removal was being logged
+            return
+
         # Drop all subscriptions for this module
         for msg_type in module.subs:
             self.subscriptions[msg_type].discard(module)
